@@ -28,6 +28,9 @@ def targets(ctx):
     import betterproto
 
     c = corpus()
+    from . import _poison
+
+    _poison_fn = lambda: _poison.apply(c)  # noqa: E731
     schema = c.schema
     adapter = BPAdapter(schema)
 
@@ -193,8 +196,8 @@ def targets(ctx):
     from . import _wkt
 
     return [
-        Target("corpus_values", ev, strategy=strat(), quick=700, thorough=8000, time_quick=70),
-        Target("length_prefix_boundaries", ev, strategy=big(), quick=150, thorough=400),
+        Target("corpus_values", ev, poison=_poison_fn, strategy=strat(), quick=700, thorough=8000, time_quick=70),
+        Target("length_prefix_boundaries", ev, poison=_poison_fn, strategy=big(), quick=150, thorough=400),
         _seq.target("C09"),
         _wkt.target("C09"),
     ]
